@@ -96,4 +96,10 @@ CHECKS = {
         "text": "A rule set mixing literal, single-wildcard, free-wildcard and path_params expressions for the same paths under each encoded-slash setting plus a default rule runs in the decision, proxy and Envoy gRPC services; every base path is sent canonically and in none/all/random re-encodings of its unreserved octets (either hex case) and with %2F / %2f inserted at several positions of the last segment; matched rule, echoed captures, accept/deny and the request line received by the upstream are compared with the canonical spelling and with the per-setting rules of the statement. Held on the spellings executed.",
         "note": "The Envoy CheckRequest carries the raw path in `path` and the query in `query` (as the repository's tests do). Which rule an encoded-slash path should match is taken from the canonical path's rule family.",
     },
+    "C13": {
+        "level": "exploration",
+        "technique": "runtime monitoring: differential oracle across the three assembled entry points for the same logical request (decision, echoed request view, upstream-side headers and cookies)",
+        "text": "Seeded logical requests (methods, hosts, percent-encoded paths with captures, repeated/encoded query parameters, multi-valued and non-ASCII headers, quoted cookies, JSON/form/YAML/text/invalid bodies in both Envoy body encodings) are sent to the HTTP decision, Envoy gRPC and proxy services loaded with the same rules, whose CEL authorizers, `if` conditions and header/cookie finalizer templates read method, URL parts, captures, headers in three name casings, cookies and the decoded body; decisions, every echoed view value and every header/cookie produced for the upstream side must be pairwise equal. Held on the requests executed.",
+        "note": "Mapping of a logical request to an Envoy CheckRequest follows the repository's tests (lower-case header keys, path/query separate). One open known finding (multi-valued pipeline header: first value on HTTP, joined on gRPC; both pinned by existing unit tests).",
+    },
 }
